@@ -55,6 +55,15 @@ def main(tier: str) -> int:
         for hl, off in (variants if tier == "thorough" else (variants[wi % 3],)):
             configs.append(("MLPEARegressor", lambda wo=wo, hl=hl, off=off: MLPEARegressor(n_iter=3, pop_size=8, hidden_layers=hl, offset=off, weights_optimizer=wo, weights_optimizer_args={"keep_history": True}, random_state=seed), "reg", None))
             configs.append(("MLPEAClassifier", lambda wo=wo, hl=hl, off=off: MLPEAClassifier(n_iter=3, pop_size=8, hidden_layers=hl, offset=off, weights_optimizer=wo, weights_optimizer_args={"keep_history": True}, random_state=seed), "clf", 3))
+    # generational weight optimizers WITHOUT elitism: the best net may be found early and lost again
+    for rep in range(6 if tier == "quick" else 30):
+        for wo in (O.GeneticAlgorithm, O.SelfCGA):
+            configs.append(("MLPEARegressor", lambda wo=wo, rep=rep: MLPEARegressor(n_iter=5, pop_size=8, hidden_layers=(2,), weights_optimizer=wo,
+                            weights_optimizer_args={"keep_history": True, "elitism": False}, random_state=seed + 100 + rep), "reg", None))
+    # GPNN with weights_optimizer_args that omit 'iters' (the estimator fills in its default on a copy)
+    configs.append(("GPNNRegressor", lambda: GeneticProgrammingNeuralNetRegressor(n_iter=2, pop_size=4, optimizer=O.GeneticProgramming,
+                    optimizer_args={"keep_history": True, "selection": "tournament_3"}, weights_optimizer=O.SHADE, weights_optimizer_args={"pop_size": 4},
+                    random_state=seed), "reg", None))
     for wo in (O.SHADE, O.SHAGA):
         for opt in (O.SelfCGP, O.GeneticProgramming):
             wa = {"iters": 3, "pop_size": 6}
